@@ -67,6 +67,7 @@ type vc08Op struct {
 	Dg      bool     `json:"dg,omitempty"`   // also observe Diagnostics()
 	Put     int      `json:"put,omitempty"`  // store fault: the k-th Put (1-based) of the write transaction fails
 	Save    string   `json:"save,omitempty"` // a notifier's Save fails: "payload" (payload event) or "tx" (transaction event)
+	Ref     string   `json:"ref,omitempty"`  // phl: the hash to append
 	Xs      []uint32 `json:"xs"`
 	Is      []uint32 `json:"is"`
 	Ws      []uint32 `json:"ws"`
@@ -784,6 +785,20 @@ func (r *vc08Run) run(ops []*vc08Op) {
 
 func (r *vc08Run) exec(op *vc08Op) {
 	tag := op.Op
+	if vc08IsCodecOp(op.Op) {
+		line := "bad"
+		func() {
+			defer func() {
+				if e := recover(); e != nil {
+					line = fmt.Sprintf("%s panic:%v", op.Op, e)
+				}
+			}()
+			line = r.codec(op)
+		}()
+		op.Xs, op.Is, op.Ws = []uint32{}, []uint32{}, []uint32{}
+		r.emit(op, line, "ok")
+		return
+	}
 	func() {
 		defer func() {
 			if e := recover(); e != nil {
@@ -1558,6 +1573,7 @@ func TestVerifC08(t *testing.T) {
 	if thorough {
 		small, medium, large = envInt("VERIF_C08_SMALL", 300), envInt("VERIF_C08_MEDIUM", 40), envInt("VERIF_C08_LARGE", 6)
 	}
+	g.codecBlock(envInt("VERIF_C08_CODEC", 120))
 	g.firstWriteFails("first-write-fails-fn", "fn")
 	g.firstWriteFails("first-write-fails-ctx", "ctx")
 	exh, exhN := 1, 7
@@ -1588,5 +1604,6 @@ func TestVerifC08(t *testing.T) {
 		}
 		g.history(fmt.Sprintf("large-%d", i), n, 1)
 	}
+	g.addRaw(40, envInt("VERIF_C08_RAW", 60))
 	r.run(g.ops)
 }
